@@ -18,6 +18,18 @@ Theorem C20_source_update : forall fuel s it kw, (2 <= fuel)%nat ->
 Proof. exact src_update_is_model. Qed.
 Print Assumptions C20_source_update.
 
+(* ... and the value-returning methods get_common_count, get_uncommon_count, __len__, most_common(n) *)
+Theorem C20_source_views : forall s,
+  src_get_common_count s = tc_common s /\ src_get_uncommon_count s = tc_uncommon s /\ src_len s = tc_len s /\
+  src_most_common s None = tc_most_common s None /\
+  (forall z, (z <= 0)%Z -> src_most_common s (Some z) = []) /\
+  (forall k, (0 < k)%nat -> src_most_common s (Some (Z.of_nat k)) = tc_most_common s (Some k)).
+Proof.
+  exact (fun s => conj (src_common_is_model s) (conj (src_uncommon_is_model s) (conj (src_len_is_model s)
+         (conj (src_most_common_none s) (conj (src_most_common_nonpos s) (src_most_common_pos s)))))).
+Qed.
+Print Assumptions C20_source_views.
+
 (* total equals the number of additions *)
 Theorem C20_total : forall w ks, tc_total (tc_adds (tc_init w) ks) = N.of_nat (length ks).
 Proof. exact total_counts_additions. Qed.
